@@ -633,7 +633,8 @@ Proof.
 Qed.
 
 (* ---- MaxConns only: scripts made of requests ---- *)
-Definition is_req (o : lop) : Prop := match o with LReq _ => True | _ => False end.
+(* scripts of a MaxConns client: HTTP requests, and cancellations of request contexts *)
+Definition is_req (o : lop) : Prop := match o with LReq _ | LCancel _ => True | _ => False end.
 Definition req_thread (th : lthread) : Prop :=
   Forall is_req (lscript th) /\
   ((lpcof th = LIdle /\ lheld th = 0) \/ (lpcof th = LInBody /\ lheld th = 1)).
@@ -648,10 +649,13 @@ Proof.
     destruct (lcur th) as [o|] eqn:Ho; [|discriminate].
     pose proof (Forall_nth _ _ _ _ F Ht) as [Sc St].
     assert (Hreq : is_req o). { rewrite Forall_forall in Sc. apply Sc. eapply nth_error_In; eauto. }
-    destruct o; try contradiction. unfold lstep_thread in H. cbv zeta in H.
+    unfold lstep_thread in H. cbv zeta in H.
     destruct St as [[Epc Eh]|[Epc Eh]]; rewrite Epc in H.
-    + destruct (Nat.ltb (lc s) (lcap s)); inversion H; subst s'; (split; [exact R|]); cbn;
-        apply Forall_upd_nth; auto; (split; [exact Sc|]); cbn; rewrite Eh; auto.
+    + destruct o; try contradiction.
+      * destruct (Nat.ltb (lc s) (lcap s)); inversion H; subst s'; (split; [exact R|]); cbn;
+          apply Forall_upd_nth; auto; (split; [exact Sc|]); cbn; rewrite Eh; auto.
+      * inversion H; subst s'; (split; [exact R|]); cbn;
+          apply Forall_upd_nth; auto; (split; [exact Sc|]); cbn; rewrite Eh; auto.
     + assert (Hc : 0 < lc s).
       { destruct HL as [A B C D E]. rewrite <- (D R). unfold lholders.
         pose proof (sumf_upd_nth lheld (lthreads s) x th th Ht). 
